@@ -2226,4 +2226,308 @@ theorem reject_beyond_depth (ext : Bool) (D : Nat) (hD : 1 ≤ D) {bs : List Nat
   have he := decode_rejects_with_depth ext d' D bs v rest hD hsp hn
   exact ⟨he, readerLoop_err ext D hne he⟩
 
+
+/-! ## Decoded values are well-formed; re-encoding is a fixed point -/
+
+theorem beNat_lt (x : List Nat) (h : ∀ b ∈ x, b < 256) : beNat x < 256 ^ x.length := by
+  induction x with
+  | nil => simp [beNat]
+  | cons b bs ih =>
+    have hb := h b (by simp)
+    have ih' := ih (fun c hc => h c (by simp [hc]))
+    simp only [beNat, List.length_cons, Nat.pow_succ]
+    have : b * 256 ^ bs.length ≤ 255 * 256 ^ bs.length := Nat.mul_le_mul_right _ (by omega)
+    omega
+
+/-- What `Marker::from_u8` guarantees about the payload of the fix-markers. -/
+def markerOk (b : Nat) : Marker → Bool
+  | .fixPos v => v == b && decide (b < 128)
+  | .fixNeg v => v == b && decide (224 ≤ b)
+  | .fixStr n => decide (n < 32)
+  | .fixArray n => decide (n < 16)
+  | .fixMap n => decide (n < 16)
+  | _ => true
+
+set_option maxRecDepth 100000 in
+theorem ofByte_ok : ∀ b, b < 256 → markerOk b (Marker.ofByte b) = true := by decide
+
+
+
+/-- What the header stage guarantees. -/
+def hdrOk (ext : Bool) : Hdr → Prop
+  | .scalar v => v.WF ext
+  | .str n => n < 2 ^ 32
+  | .bin n => n < 2 ^ 32
+  | .ext n => n < 2 ^ 32
+  | .arr n => n < 2 ^ 32
+  | .map n => n < 2 ^ 32
+
+theorem layout_imm_ok (ext : Bool) {b : Nat} (hb : b < 256) {hd : Hdr}
+    (h : layout (Marker.ofByte b) = .imm hd) : hdrOk ext hd := by
+  have hm := ofByte_ok b hb
+  generalize Marker.ofByte b = m at h hm
+  cases m <;> simp only [layout] at h <;> cases h <;>
+    simp only [markerOk, Bool.and_eq_true, beq_iff_eq, decide_eq_true_eq] at hm <;>
+    simp only [hdrOk, MVal.WF] <;> omega
+
+theorem layout_data_ok {m : Marker} {k : Nat} {kind : DataKind} (h : layout m = .data k kind) :
+    (k = 1 ∨ k = 2 ∨ k = 4 ∨ k = 8) ∧ (kind = .f32 → k = 4) ∧ (kind = .f64 → k = 8) := by
+  cases m <;> simp only [layout] at h <;> cases h <;> simp
+
+theorem layout_len_ok {m : Marker} {w : Nat} {kind : LenKind} (h : layout m = .len w kind) :
+    w = 1 ∨ w = 2 ∨ w = 4 := by
+  cases m <;> simp only [layout] at h <;> cases h <;> simp
+
+theorem readN_bytes {n : Nat} {bs x r : List Nat} (h : readN n bs = .ok (x, r))
+    (hb : ∀ c ∈ bs, c < 256) : x.length = n ∧ (∀ c ∈ x, c < 256) ∧ (∀ c ∈ r, c < 256) := by
+  obtain ⟨e, hl, _⟩ := readN_ok h
+  subst e
+  exact ⟨hl, fun c hc => hb c (by simp [hc]), fun c hc => hb c (by simp [hc])⟩
+
+theorem mkData_wf (ext : Bool) {kind : DataKind} {k : Nat} {x : List Nat}
+    (hk : (k = 1 ∨ k = 2 ∨ k = 4 ∨ k = 8) ∧ (kind = .f32 → k = 4) ∧ (kind = .f64 → k = 8))
+    (hl : x.length = k) (hx : ∀ c ∈ x, c < 256) : (mkData kind k x).WF ext := by
+  have hlt := beNat_lt x hx
+  rw [hl] at hlt
+  obtain ⟨hk1, hk2, hk3⟩ := hk
+  cases kind with
+  | uint =>
+    simp only [mkData, MVal.WF]
+    rcases hk1 with h | h | h | h <;> subst h <;> simp only [Nat.reducePow] at hlt ⊢ <;> omega
+  | sint =>
+    simp only [mkData]
+    rcases hk1 with h | h | h | h <;> subst h <;> simp only [Nat.reducePow, Nat.reduceDiv] at hlt ⊢ <;>
+      split <;> simp only [MVal.WF] <;> omega
+  | f32 =>
+    have := hk2 rfl; subst this
+    simp only [mkData, MVal.WF]; simp only [Nat.reducePow] at hlt ⊢; omega
+  | f64 =>
+    have := hk3 rfl; subst this
+    simp only [mkData, MVal.WF]; simp only [Nat.reducePow] at hlt ⊢; omega
+
+theorem mkHdr_ok (ext : Bool) (kind : LenKind) {n : Nat} (h : n < 2 ^ 32) :
+    hdrOk ext (mkHdr kind n) := by
+  cases kind <;> exact h
+
+theorem header_wf (ext : Bool) {b : Nat} {t : List Nat} {h : Hdr} {r : List Nat}
+    (hb : b < 256) (ht : ∀ c ∈ t, c < 256) (hh : header (Marker.ofByte b) t = .ok (h, r)) :
+    hdrOk ext h ∧ (∀ c ∈ r, c < 256) := by
+  unfold header at hh
+  split at hh
+  · cases hh
+  · rename_i h' hl
+    injection hh with hh; injection hh with h1 h2; subst h1; subst h2
+    exact ⟨layout_imm_ok ext hb hl, ht⟩
+  · rename_i k kind hl
+    split at hh
+    · cases hh
+    · rename_i x r1 hr
+      injection hh with hh; injection hh with h1 h2; subst h1; subst h2
+      obtain ⟨g1, g2, g3⟩ := readN_bytes hr ht
+      exact ⟨mkData_wf ext (layout_data_ok hl) g1 g2, g3⟩
+  · rename_i w kind hl
+    split at hh
+    · cases hh
+    · rename_i x r1 hr
+      injection hh with hh; injection hh with h1 h2; subst h1; subst h2
+      obtain ⟨g1, g2, g3⟩ := readN_bytes hr ht
+      refine ⟨mkHdr_ok ext kind ?_, g3⟩
+      have hlt := beNat_lt x g2
+      rw [g1] at hlt
+      rcases layout_len_ok hl with h | h | h <;> subst h <;> simp only [Nat.reducePow] at hlt ⊢ <;> omega
+
+
+
+theorem Local.rest_bytes {α : Type} {f : List Nat → Except DErr (α × List Nat)} (hf : Local f)
+    {bs : List Nat} {v : α} {r : List Nat} (h : f bs = .ok (v, r)) (hb : ∀ c ∈ bs, c < 256) :
+    ∀ c ∈ r, c < 256 := by
+  obtain ⟨u, e, _⟩ := hf _ _ _ h
+  subst e
+  exact fun c hc => hb c (by simp [hc])
+
+theorem seqWith_wf {f : List Nat → Except DErr (MVal × List Nat)} {ext : Bool} (hloc : Local f)
+    (hf : ∀ bs v r, (∀ c ∈ bs, c < 256) → f bs = .ok (v, r) → v.WF ext) :
+    ∀ n bs vs r, (∀ c ∈ bs, c < 256) → seqWith f n bs = .ok (vs, r) →
+      WFList ext vs ∧ vs.length = n := by
+  intro n
+  induction n with
+  | zero =>
+    intro bs vs r _ h
+    simp only [seqWith] at h
+    injection h with h; injection h with h1 _; subst h1
+    exact ⟨trivial, rfl⟩
+  | succ n ih =>
+    intro bs vs r hb h
+    simp only [seqWith] at h
+    split at h
+    · cases h
+    · rename_i v r1 h1
+      split at h
+      · cases h
+      · rename_i vs' r2 h2
+        injection h with h; injection h with h3 _; subst h3
+        obtain ⟨i1, i2⟩ := ih _ _ _ (hloc.rest_bytes h1 hb) h2
+        exact ⟨⟨hf _ _ _ hb h1, i1⟩, by simp [i2]⟩
+
+theorem pairsWith_wf {f : List Nat → Except DErr (MVal × List Nat)} {ext : Bool} (hloc : Local f)
+    (hf : ∀ bs v r, (∀ c ∈ bs, c < 256) → f bs = .ok (v, r) → v.WF ext) :
+    ∀ n bs kvs r, (∀ c ∈ bs, c < 256) → pairsWith f n bs = .ok (kvs, r) →
+      WFPairs ext kvs ∧ kvs.length = n := by
+  intro n
+  induction n with
+  | zero =>
+    intro bs vs r _ h
+    simp only [pairsWith] at h
+    injection h with h; injection h with h1 _; subst h1
+    exact ⟨trivial, rfl⟩
+  | succ n ih =>
+    intro bs vs r hb h
+    simp only [pairsWith] at h
+    split at h
+    · cases h
+    · rename_i k r1 h1
+      split at h
+      · cases h
+      · rename_i v r2 h2
+        split at h
+        · cases h
+        · rename_i kvs r3 h3
+          injection h with h; injection h with h4 _; subst h4
+          have hb1 := hloc.rest_bytes h1 hb
+          have hb2 := hloc.rest_bytes h2 hb1
+          obtain ⟨i1, i2⟩ := ih _ _ _ hb2 h3
+          exact ⟨⟨hf _ _ _ hb h1, hf _ _ _ hb1 h2, i1⟩, by simp [i2]⟩
+
+/-- Every value the decoder produces from bytes (< 256) is well-formed: the
+serializer can write it and it decodes back to itself. -/
+theorem decode_wf (ext : Bool) (d : Nat) :
+    ∀ bs v rest, (∀ c ∈ bs, c < 256) → decodeG ext d bs = .ok (v, rest) → v.WF ext := by
+  induction d using Nat.strongRecOn with
+  | _ d ih =>
+    intro bs v rest hb h
+    unfold decodeG at h
+    split at h
+    · cases h
+    · rename_i b t
+      have hb0 : b < 256 := hb b (by simp)
+      have ht : ∀ c ∈ t, c < 256 := fun c hc => hb c (by simp [hc])
+      split at h
+      · cases h
+      · rename_i v' r hh
+        injection h with h; injection h with h1 _; subst h1
+        exact (header_wf ext hb0 ht hh).1
+      · rename_i len r hh
+        obtain ⟨g1, g2⟩ := header_wf ext hb0 ht hh
+        split at h
+        · cases h
+        · rename_i s r' hr
+          injection h with h; injection h with h1 _; subst h1
+          obtain ⟨l1, _, _⟩ := readN_bytes hr g2
+          simp only [hdrOk] at g1
+          split
+          · rename_i hv; exact ⟨by omega, hv⟩
+          · simp only [MVal.WF]; omega
+      · rename_i len r hh
+        obtain ⟨g1, g2⟩ := header_wf ext hb0 ht hh
+        split at h
+        · cases h
+        · rename_i s r' hr
+          injection h with h; injection h with h1 _; subst h1
+          obtain ⟨l1, _, _⟩ := readN_bytes hr g2
+          simp only [hdrOk] at g1
+          simp only [MVal.WF]; omega
+      · rename_i len r hh
+        obtain ⟨g1, g2⟩ := header_wf ext hb0 ht hh
+        split at h
+        · cases h
+        · split at h
+          · cases h
+          · split at h
+            · rename_i hext
+              split at h
+              · cases h
+              · rename_i ty r1 hr1
+                split at h
+                · cases h
+                · rename_i s r2 hr2
+                  injection h with h; injection h with h1 _; subst h1
+                  obtain ⟨l1, l2, l3⟩ := readN_bytes hr1 g2
+                  obtain ⟨m1, _, _⟩ := readN_bytes hr2 l3
+                  simp only [hdrOk] at g1
+                  have := beNat_lt ty l2
+                  rw [l1] at this
+                  exact ⟨hext, by simpa using this, by omega⟩
+            · cases h
+      · rename_i count r hh
+        obtain ⟨g1, g2⟩ := header_wf ext hb0 ht hh
+        split at h
+        · cases h
+        · rename_i d'
+          split at h
+          · cases h
+          · split at h
+            · cases h
+            · rename_i vs r' hs
+              injection h with h; injection h with h1 _; subst h1
+              obtain ⟨i1, i2⟩ := seqWith_wf (decodeG_local ext d') (ih d' (by omega)) _ _ _ _ g2 hs
+              simp only [hdrOk] at g1
+              exact ⟨by omega, i1⟩
+      · rename_i count r hh
+        obtain ⟨g1, g2⟩ := header_wf ext hb0 ht hh
+        split at h
+        · cases h
+        · rename_i d'
+          split at h
+          · cases h
+          · split at h
+            · cases h
+            · rename_i kvs r' hs
+              injection h with h; injection h with h1 _; subst h1
+              obtain ⟨i1, i2⟩ := pairsWith_wf (decodeG_local ext d') (ih d' (by omega)) _ _ _ _ g2 hs
+              simp only [hdrOk] at g1
+              exact ⟨by omega, i1⟩
+
+/-- Translating MessagePack to MessagePack is idempotent on every input: what
+the decoder read from any bytes, once written by the serializer, decodes back
+to the same value (so a second translation writes the same bytes). -/
+theorem reencode_fixed_point (ext : Bool) (d : Nat) (hd : 1 ≤ d) (bs : List Nat) (v : MVal)
+    (rest : List Nat) (hb : ∀ c ∈ bs, c < 256) (h : decodeG ext d bs = .ok (v, rest)) :
+    ∀ r, decodeG ext d (encode v ++ r) = .ok (v, r) := by
+  intro r
+  have hw := decode_wf ext d bs v rest hb h
+  have hn := decode_within ext d bs v rest h
+  exact roundtrip_val ext v d r hw (by unfold MVal.Within at hn; omega)
+
+
+
+theorem readerLoop_docs_wf (ext : Bool) (D : Nat) (hD : 1 ≤ D) (bs : List Nat)
+    (hb : ∀ c ∈ bs, c < 256) :
+    ∀ v ∈ (readerLoop ext D bs).1, v.WF ext ∧ v.nesting < D := by
+  induction hlen : bs.length using Nat.strongRecOn generalizing bs with
+  | _ k ih =>
+    cases bs with
+    | nil => simp [readerLoop_nil]
+    | cons b t =>
+      cases hdec : decodeG ext D (b :: t) with
+      | error e => rw [readerLoop_err ext D (by simp) hdec]; simp
+      | ok p =>
+        obtain ⟨v, rest⟩ := p
+        rw [readerLoop_ok ext D hdec]
+        intro x hx
+        rcases List.mem_cons.mp hx with rfl | hx
+        · have hw := decode_within ext D _ _ _ hdec
+          exact ⟨decode_wf ext D _ _ _ hb hdec, by unfold MVal.Within at hw; omega⟩
+        · have hlt := decodeG_lt ext D _ _ _ hdec
+          exact ih rest.length (by omega) rest
+            ((decodeG_local ext D).rest_bytes hdec hb) rfl x hx
+
+/-- Model-level `xt(m→m)(xt(m→m)(x)) = xt(m→m)(x)` for every input `x`: the
+documents a translation wrote are read back unchanged, all of them, and the
+second translation succeeds. -/
+theorem m2m_idempotent (ext : Bool) (D : Nat) (hD : 1 ≤ D) (bs : List Nat)
+    (hb : ∀ c ∈ bs, c < 256) :
+    readerLoop ext D (((readerLoop ext D bs).1).flatMap encode) = ((readerLoop ext D bs).1, .ok) :=
+  frame_recover ext D _ (fun v hv => (readerLoop_docs_wf ext D hD bs hb v hv).1)
+    (fun v hv => (readerLoop_docs_wf ext D hD bs hb v hv).2)
+
 end Xt.Msgpack
